@@ -77,12 +77,24 @@ class Hist:
 
 
 def make_pool(rng, dl):
-    """values with duplicates, values that differ only in the last byte, a value >= 256^dl, zero"""
+    """value alphabet (CONVENTIONS addendum 3): small values with duplicates; records that differ only in
+    their LAST byte(s) or only in their FIRST byte(s) for this element size — for sizes above 8 also records
+    with an equal leading 8-byte word and a different tail; pairs exactly 2^31, 2^32, 2^63 apart; values near
+    2^64 - 1 and near 256^dl - 1; a value >= 256^dl (truncated by the encoding)"""
+    M = 256 ** dl
     top = 256 ** (dl - 1)
-    base = [0, 1, 2, 3, 4, 5, 6, 255, 256 ** dl + 1, 2 * top + 1, 3 * top + 1, top, 2 * top, 256 ** dl - 1]
-    base += [rng.randrange(256 ** dl) for _ in range(4)]
+    body = rng.randrange(M)                       # a record with arbitrary bytes everywhere
+    v = rng.randrange(1, 1000)
+    base = [0, 1, 2, 3, 4, 5, 6, 255, M + 1, 2 * top + 1, 3 * top + 1, top, 2 * top, M - 1, M - 2]
+    base += [body, body ^ 1, body ^ 0x80, body ^ top, body ^ (0x80 * top)]          # first byte / last byte only
+    if dl >= 2:
+        base += [body ^ (top // 256 if dl >= 3 else 256), body ^ 256]                 # last-but-one / second byte
+    if dl > 8:
+        base += [body ^ 2 ** 64, body ^ 2 ** (8 * (dl - 1)), (body % 2 ** 64) + 2 ** 64, (body % 2 ** 64) + 2 ** 65]
+    base += [v, v + 2 ** 31, v + 2 ** 32, v + 2 ** 63, 2 ** 64 - 1, 2 ** 64 - 2, 2 ** 63, 2 ** 32, 2 ** 31]
+    base += [rng.randrange(M) for _ in range(3)]
     base += [rng.randrange(1, 100) for _ in range(4)]
-    return [v for v in base]
+    return [x % (4 * M) if x >= 4 * M else x for x in base]
 
 
 def wrap_indices(dl, n):
@@ -134,7 +146,7 @@ def core_op(h, o, rng, weights=None, reject=False):
     elif op == "replace_at":
         v = h.val()
         i = idx(rng, n, valid, s.dl)
-        h.ops.append(f"replace_at {v} {i}{suf}" + (" noout=1" if rng.random() < 0.2 else ""))
+        h.ops.append(f"replace_at {v} {i}{suf}" + (" noout=1" if rng.random() < 0.3 else ""))
         if i < n:
             s.xs[i] = s.norm(v)
     elif op == "swap_at":
@@ -153,11 +165,11 @@ def core_op(h, o, rng, weights=None, reject=False):
             s.xs.remove(s.norm(v))
     elif op == "remove_at":
         i = idx(rng, n, valid, s.dl)
-        h.ops.append(f"remove_at {i}{suf}" + (" noout=1" if rng.random() < 0.2 else ""))
+        h.ops.append(f"remove_at {i}{suf}" + (" noout=1" if rng.random() < 0.3 else ""))
         if i < n:
             del s.xs[i]
     elif op == "remove_last":
-        h.ops.append(f"remove_last{suf}")
+        h.ops.append(f"remove_last{suf}" + (" noout=1" if rng.random() < 0.3 else ""))
         if n:
             s.xs.pop()
     elif op == "remove_all":
@@ -209,7 +221,7 @@ def iter_program(h, o, rng, allow_add=True, p_fail=0.0):
             h.ops.append("it_index")
         r = rng.random()
         if r < 0.25:
-            h.ops.append("it_remove" + (" noout=1" if rng.random() < 0.2 else ""))
+            h.ops.append("it_remove" + (" noout=1" if rng.random() < 0.3 else ""))
             pos -= 1
             del s.xs[pos]
             if rng.random() < 0.15:
@@ -223,7 +235,7 @@ def iter_program(h, o, rng, allow_add=True, p_fail=0.0):
             pos += 1
         elif r < 0.65:
             v = h.val()
-            h.ops.append(f"it_replace {v}" + (" noout=1" if rng.random() < 0.2 else ""))
+            h.ops.append(f"it_replace {v}" + (" noout=1" if rng.random() < 0.3 else ""))
             s.xs[pos - 1] = s.norm(v)
         if rng.random() < 0.1:
             h.ops.append(rng.choice([f"get_at {idx(rng, len(s.xs))}{suf}", f"size{suf}", f"get_last{suf}"]))
@@ -244,7 +256,7 @@ def zip_program(h, o1, o2, rng, allow_add=True, p_fail=0.0):
             h.ops.append("zit_index")
         r = rng.random()
         if r < 0.25:
-            h.ops.append("zit_remove")
+            h.ops.append("zit_remove" + (" noout=1" if rng.random() < 0.3 else ""))
             pos -= 1
             del s1.xs[pos]
             del s2.xs[pos]
@@ -258,7 +270,7 @@ def zip_program(h, o1, o2, rng, allow_add=True, p_fail=0.0):
             pos += 1
         elif r < 0.65:
             v1, v2 = h.val(), h.val()
-            h.ops.append(f"zit_replace {v1} {v2}")
+            h.ops.append(f"zit_replace {v1} {v2}" + (" noout=1" if rng.random() < 0.3 else ""))
             s1.xs[pos - 1] = s1.norm(v1)
             s2.xs[pos - 1] = s2.norm(v2)
 
@@ -279,7 +291,7 @@ def zip_same_program(h, o, rng, p_fail=0.0):
             h.ops.append("zit_index")
         r = rng.random()
         if r < 0.25:
-            h.ops.append("zit_remove")
+            h.ops.append("zit_remove" + (" noout=1" if rng.random() < 0.3 else ""))
             pos -= 1
             del s.xs[pos]
             if pos < len(s.xs):
@@ -294,7 +306,7 @@ def zip_same_program(h, o, rng, p_fail=0.0):
             pos += 1
         elif r < 0.7:
             v1, v2 = h.val(), h.val()
-            h.ops.append(f"zit_replace {v1} {v2}")
+            h.ops.append(f"zit_replace {v1} {v2}" + (" noout=1" if rng.random() < 0.3 else ""))
             s.xs[pos - 1] = s.norm(v2)
     if rng.random() < 0.5:
         h.ops.append(f"foreach_zip o={o} o2={o}")
@@ -407,7 +419,7 @@ class ArraySizedGen:
             if dl == 1:
                 b = 6
             alphabet = [f"add {a}", f"add {b}", f"add_at {b} 0", f"add_at {a} 1", f"remove {a}", "remove_at 0",
-                        "remove_at 1", "remove_last", f"replace_at {b} 0", "swap_at 0 1", "reverse",
+                        "remove_at 1 noout=1", "remove_last noout=1" if dl == 3 else "remove_last", f"replace_at {b} 0" + (" noout=1" if dl == 17 else ""), "swap_at 0 1", "reverse",
                         "filter_mut p=even", "trim_capacity", "remove_all"]
             for cap in caps:
                 for n in range(0, L + 1):
@@ -430,7 +442,7 @@ class ArraySizedGen:
 
     def _small_iter(self, quick):
         out = []
-        acts = ["", "it_remove", "it_add 9", "it_replace 8", "it_index"]
+        acts = ["", "it_remove", "it_add 9", "it_replace 8", "it_index", "it_remove noout=1", "it_replace 8 noout=1"]
         for dl in (1, 3):
             for n in range(0, 4):
                 for prog in itertools.product(acts, repeat=n):
@@ -442,7 +454,7 @@ class ArraySizedGen:
                             ops.append("it_index")
                     ops += ["it_next", "it_next", "foreach", "destroy"]
                     out.append(ops)
-        zacts = ["", "zit_remove", "zit_add 9 19", "zit_replace 8 18", "zit_index"]
+        zacts = ["", "zit_remove", "zit_add 9 19", "zit_replace 8 18", "zit_index", "zit_remove noout=1", "zit_replace 8 18 noout=1"]
         for n1, n2 in ((0, 2), (2, 0), (1, 1), (2, 3), (3, 2), (3, 3)):
             for prog in itertools.product(zacts, repeat=min(n1, n2)):
                 ops = ["new esize=2 cap=4 exp=2", "new o=1 esize=3 cap=4 exp=2"]
